@@ -26,6 +26,13 @@ def gen(rng, full):
             for hsh in ("good", "bad", "unknown"):
                 for tail in (0, 1):
                     add(total, tail, "last", "crc32c", bits, highest(bits), hsh, 1 + (k % 3))
+    # a receiver that answers only after the sender's grace period (it handled FileBegin late): the sender has by then sent every chunk and
+    # the end record without a plan - the report must not make anything follow the end record
+    for total, streams in ((1, 1), (2, 1), (3, 2)) + (((5, 3), (2, 2)) if full else ()):
+        for hsh in ("bad", "good", "unknown"):
+            bits = "1" * total
+            add(total, 0, "last", "crc32c", bits, total - 1, hsh, streams)
+            cases[-1].update({"report_delay_ms": 420, "done_delay_ms": 350})
     n = 260 if full else 70
     for _ in range(n):
         total = rng.choice([1, 2, 3, 4, 7, 8, 9, 12, 16, 17, 33])
@@ -68,6 +75,16 @@ def run(ctx, exe, prop):
     for c, r, m in zip(cases, res, mod):
         if r.get("note") or not r.get("sender_ok"):
             diffs.append((c, r, m, f"the sender did not complete against the scripted receiver: {r.get('note') or r.get('sender_err')}"))
+            continue
+        if c.get("report_delay_ms"):
+            # no plan was in force when the chunks were dispatched: every chunk travels once, the end record announces them all and is the
+            # last thing sent for the file (model: SendFile.C17_nothing_after_end; the `plan` line of Model/Resume does not apply)
+            stats["late_report"] = stats.get("late_report", 0) + 1
+            sent = r.get("sent") or []
+            if prop == "C17" and (r.get("frames_after_end") or sorted(sent) != list(range(c["chunks"]))):
+                ctx.violation("C17:chunk-after-end:late-report", f"resume report (hash {c['hash']}) delivered {c['report_delay_ms']} ms after the request, i.e. after the sender had sent all "
+                              f"{c['chunks']} chunks and FileEnd (announcing {r.get('file_end_count')} frames): frames {sent} travelled, {r.get('frames_after_end')} of them after the end record",
+                              {"case": c, "result": r})
             continue
         impl = "sent=" + json.dumps(r.get("sent") or [])
         want_sent = m.split(" skipped=")[0]
